@@ -1,45 +1,184 @@
 ------------------------------ MODULE SeqFuns ------------------------------
 (***************************************************************************)
 (* C14 - sequence functions honour their keyword arguments on lists,       *)
-(* vectors and strings.  The definitions are transcribed from the language *)
-(* definition on TLA+ sequences: `Hits` = positions inside [start, end)    *)
-(* whose element satisfies test(item, key(elt)); `Lim` applies :count from *)
-(* the requested end.  One TLC action dumps every parameter combination    *)
-(* with the expected results of find/position/count/remove/substitute.     *)
+(* vectors and strings.                                                    *)
+(*                                                                         *)
+(* The definitions are transcribed from the language definition onto TLA+  *)
+(* sequences.  Elements are small integers (rendered as integers in lists  *)
+(* and vectors and as the characters a, b, c ... in strings).  Bounds are  *)
+(* 0-based half open [st, en) as in the language; None = keyword absent.   *)
+(* `Hits` = positions inside the bounds whose element satisfies the test;  *)
+(* `Lim` applies :count from the requested end.  TLC enumerates every      *)
+(* parameter combination inside the bounds (plus random longer sequences   *)
+(* for the sorting family) and prints one row per call with the result the *)
+(* definition gives.                                                       *)
 (***************************************************************************)
-EXTENDS Integers, Sequences, TLC, FiniteSets, Json
-Elems == {0, 1, 2}
-CONSTANT MaxLen
-Seqs == UNION {[1..n -> Elems] : n \in 0..MaxLen}
+EXTENDS Integers, Sequences, TLC, FiniteSets, Json, Randomization
+CONSTANTS MaxLen,      \* exhaustive up to this length
+          LongLen,     \* length of the random longer sequences
+          NLong        \* how many of those
+Elems == {0, 1, 2, 3}
+Seqs(n) == UNION {[1..k -> Elems] : k \in 0..n}
 None == -1
+\* :key  id | inc (1+)      :test  eql | lt (#'<, called as test(item, key(elt)))
 K(key, e) == IF key = "inc" THEN e + 1 ELSE e
 Sat(item, e, key, test) == IF test = "lt" THEN item < K(key, e) ELSE item = K(key, e)
-\* 0-based bounds [st, en) ; idx(s) = 1-based positions inside the bounds that satisfy
-Hits(s, item, st, en, key, test) == SelectSeq([i \in 1..Len(s) |-> i], LAMBDA i : i > st /\ i <= en /\ Sat(item, s[i], key, test))
-Lim(h, cnt, fe) == IF cnt = None \/ cnt >= Len(h) THEN h
-                   ELSE IF fe THEN SubSeq(h, Len(h) - cnt + 1, Len(h)) ELSE SubSeq(h, 1, cnt)
+\* predicates for the -if / -if-not variants: odd key
+Pred(e, key) == K(key, e) % 2 = 1
+Iota(n) == [i \in 1..n |-> i]
 InSeq(x, h) == \E j \in 1..Len(h) : h[j] = x
-Find(s, item, st, en, key, test, fe) == LET h == Hits(s, item, st, en, key, test) IN
-     IF h = <<>> THEN None ELSE IF fe THEN s[h[Len(h)]] ELSE s[h[1]]
-Position(s, item, st, en, key, test, fe) == LET h == Hits(s, item, st, en, key, test) IN
-     IF h = <<>> THEN None ELSE IF fe THEN h[Len(h)] - 1 ELSE h[1] - 1
-Count(s, item, st, en, key, test) == Len(Hits(s, item, st, en, key, test))
-Remove(s, item, st, en, key, test, fe, cnt) == LET h == Lim(Hits(s, item, st, en, key, test), cnt, fe) IN
-     SelectSeq([i \in 1..Len(s) |-> [i |-> i, e |-> s[i]]], LAMBDA p : ~InSeq(p.i, h))
-Substitute(new, s, item, st, en, key, test, fe, cnt) == LET h == Lim(Hits(s, item, st, en, key, test), cnt, fe) IN
-     [i \in 1..Len(s) |-> IF InSeq(i, h) THEN new ELSE s[i]]
+Rev(s) == [i \in 1..Len(s) |-> s[Len(s) + 1 - i]]
+En(s, en) == IF en = None THEN Len(s) ELSE en
+\* 1-based positions inside [st, en) that satisfy
+Hits(s, st, en, P(_)) == SelectSeq(Iota(Len(s)), LAMBDA i : i > st /\ i <= En(s, en) /\ P(s[i]))
+Lim(h, cnt, fe) == IF cnt = None \/ cnt >= Len(h) THEN h
+                   ELSE IF cnt <= 0 THEN <<>>
+                   ELSE IF fe THEN SubSeq(h, Len(h) - cnt + 1, Len(h)) ELSE SubSeq(h, 1, cnt)
+FindH(s, h, fe) == IF h = <<>> THEN None ELSE IF fe THEN s[h[Len(h)]] ELSE s[h[1]]
+PosH(h, fe) == IF h = <<>> THEN None ELSE IF fe THEN h[Len(h)] - 1 ELSE h[1] - 1
+RemoveH(s, h) == LET keep == SelectSeq(Iota(Len(s)), LAMBDA i : ~InSeq(i, h)) IN [j \in 1..Len(keep) |-> s[keep[j]]]
+SubstH(new, s, h) == [i \in 1..Len(s) |-> IF InSeq(i, h) THEN new ELSE s[i]]
+\* remove-duplicates: an element is dropped when a later (or, with :from-end, an earlier) element inside the bounds matches
+Dups(s, st, en, key, fe) ==
+  SelectSeq(Iota(Len(s)), LAMBDA i : /\ i > st /\ i <= En(s, en)
+                                      /\ \E j \in 1..Len(s) : /\ j > st /\ j <= En(s, en)
+                                                              /\ (IF fe THEN j < i ELSE j > i)
+                                                              /\ K(key, s[j]) = K(key, s[i]))
+\* search: first (last with :from-end) position in b[st2, en2) where a[st1, en1) matches elementwise
+Sub(s, st, en) == SubSeq(s, st + 1, En(s, en))
+Search(a, b, st1, en1, st2, en2, fe) ==
+  LET pat == Sub(a, st1, en1)  n == Len(pat)
+      cands == SelectSeq(Iota(Len(b) + 1), LAMBDA p : p - 1 >= st2 /\ p - 1 + n <= En(b, en2) /\ SubSeq(b, p, p - 1 + n) = pat)
+  IN IF cands = <<>> THEN None ELSE IF fe THEN cands[Len(cands)] - 1 ELSE cands[1] - 1
+\* mismatch: first position (in a) where the two bounded subsequences differ, None if they match
+Mismatch(a, b, st1, en1, st2, en2) ==
+  LET x == Sub(a, st1, en1)  y == Sub(b, st2, en2)
+      n == IF Len(x) < Len(y) THEN Len(x) ELSE Len(y)
+      d == SelectSeq(Iota(n), LAMBDA i : x[i] # y[i])
+  IN IF d # <<>> THEN st1 + d[1] - 1 ELSE IF Len(x) = Len(y) THEN None ELSE st1 + n
+\* replace: copies b[st2,en2) into a[st1,en1), as many as fit
+Replace(a, b, st1, en1, st2, en2) ==
+  LET y == Sub(b, st2, en2)
+      room == En(a, en1) - st1
+      n == IF Len(y) < room THEN Len(y) ELSE room
+  IN [i \in 1..Len(a) |-> IF i > st1 /\ i <= st1 + n THEN y[i - st1] ELSE a[i]]
+Fill(a, x, st, en) == [i \in 1..Len(a) |-> IF i > st /\ i <= En(a, en) THEN x ELSE a[i]]
+\* sorting: elements are two-digit numbers, the key is the tens digit; stable insertion sort is THE stable result
+SortKey(x) == x \div 10
+RECURSIVE InsertStable(_, _)
+InsertStable(e, s) == IF s = <<>> THEN <<e>> ELSE IF SortKey(e) < SortKey(s[1]) THEN <<e>> \o s ELSE <<s[1]>> \o InsertStable(e, Tail(s))
+RECURSIVE StableSort(_)
+StableSort(s) == IF s = <<>> THEN <<>> ELSE InsertStable(s[Len(s)], StableSort(SubSeq(s, 1, Len(s) - 1)))
+\* merge of two sequences already sorted by the key: stable, elements of the first come first among equals
+RECURSIVE Merge(_, _)
+Merge(a, b) == IF a = <<>> THEN b ELSE IF b = <<>> THEN a
+               ELSE IF SortKey(b[1]) < SortKey(a[1]) THEN <<b[1]>> \o Merge(a, Tail(b)) ELSE <<a[1]>> \o Merge(Tail(a), b)
+Rng(s) == {s[i] : i \in 1..Len(s)}
+RECURSIVE Reduce(_, _, _)        \* (reduce #'- s :initial-value acc), left fold
+Reduce(s, acc, i) == IF i > Len(s) THEN acc ELSE Reduce(s, acc - s[i], i + 1)
+RECURSIVE ReduceR(_, _, _)       \* :from-end t, right fold: s[i] - acc
+ReduceR(s, acc, i) == IF i < 1 THEN acc ELSE ReduceR(s, s[i] - acc, i - 1)
+
+Row(fn, a, b, item, kw, t, v) == PrintT(ToJson([fn |-> fn, a |-> a, b |-> b, item |-> item, kw |-> kw, t |-> t, v |-> v]))
+KW(st, en, fe, cnt, key, test) == [st |-> st, en |-> en, fe |-> fe, cnt |-> cnt, key |-> key, test |-> test, st2 |-> None, en2 |-> None]
+KW2(st1, en1, st2, en2, fe) == [st |-> st1, en |-> en1, fe |-> fe, cnt |-> None, key |-> "id", test |-> "eql", st2 |-> st2, en2 |-> en2]
+NoKW == KW(None, None, FALSE, None, "id", "eql")
+Bounds(n) == {<<None, None>>} \cup {<<st, en>> \in (0..n) \X ((0..n) \cup {None}) : en = None \/ st <= en}
+St(b) == IF b[1] = None THEN 0 ELSE b[1]
+Opt(x) == IF x = None THEN [none |-> TRUE, v |-> 0] ELSE [none |-> FALSE, v |-> x]
+
 VARIABLE done
 Init == done = FALSE
-Bounds(n) == {<<st, en>> \in (0..n) \X (0..n) : st <= en}
+\* ---- item / predicate family: find position count remove substitute delete (+ -if, -if-not) ------------
+FamItem ==
+  \A s \in Seqs(MaxLen) : \A b \in Bounds(Len(s)) : \A fe \in BOOLEAN : \A key \in {"id", "inc"} :
+    /\ \A test \in {"eql", "lt"} : \A cnt \in {None, 0, 1, 2} :
+         LET h == Hits(s, St(b), b[2], LAMBDA e : Sat(1, e, key, test))
+             kw == KW(b[1], b[2], fe, cnt, key, test) IN
+         /\ (cnt # None \/ (/\ Row("find", s, <<>>, 1, kw, "elem", Opt(FindH(s, h, fe)))
+                            /\ Row("position", s, <<>>, 1, kw, "int", Opt(PosH(h, fe)))
+                            /\ Row("count", s, <<>>, 1, kw, "int", Opt(Len(h)))))
+         /\ Row("remove", s, <<>>, 1, kw, "seq", RemoveH(s, Lim(h, cnt, fe)))
+         /\ Row("delete", s, <<>>, 1, kw, "seq", RemoveH(s, Lim(h, cnt, fe)))
+         /\ Row("substitute", s, <<>>, 1, kw, "seq", SubstH(3, s, Lim(h, cnt, fe)))
+    /\ \A neg \in BOOLEAN : \A cnt \in {None, 1} :
+         LET h == Hits(s, St(b), b[2], LAMBDA e : Pred(e, key) # neg)
+             kw == KW(b[1], b[2], fe, cnt, key, "eql")
+             sfx == IF neg THEN "-if-not" ELSE "-if" IN
+         /\ (cnt # None \/ (/\ Row("find" \o sfx, s, <<>>, 0, kw, "elem", Opt(FindH(s, h, fe)))
+                            /\ Row("position" \o sfx, s, <<>>, 0, kw, "int", Opt(PosH(h, fe)))
+                            /\ Row("count" \o sfx, s, <<>>, 0, kw, "int", Opt(Len(h)))))
+         /\ Row("remove" \o sfx, s, <<>>, 0, kw, "seq", RemoveH(s, Lim(h, cnt, fe)))
+         /\ Row("delete" \o sfx, s, <<>>, 0, kw, "seq", RemoveH(s, Lim(h, cnt, fe)))
+         /\ Row("substitute" \o sfx, s, <<>>, 0, kw, "seq", SubstH(3, s, Lim(h, cnt, fe)))
+FamDup ==
+  \A s \in Seqs(MaxLen) : \A b \in Bounds(Len(s)) : \A fe \in BOOLEAN : \A key \in {"id", "inc"} :
+     Row("remove-duplicates", s, <<>>, 0, KW(b[1], b[2], fe, None, key, "eql"), "seq", RemoveH(s, Dups(s, St(b), b[2], key, fe)))
+\* ---- two-sequence family ---------------------------------------------------------------------------------
+Bits(n) == UNION {[1..k -> {0, 1}] : k \in 0..n}          \* a two-letter alphabet keeps this family small
+FamTwo ==
+  \A a \in Bits(2) : \A b \in Bits(MaxLen + 1) : \A b1 \in Bounds(Len(a)) : \A b2 \in Bounds(Len(b)) :
+     /\ \A fe \in BOOLEAN : Row("search", a, b, 0, KW2(b1[1], b1[2], b2[1], b2[2], fe), "int",
+                               Opt(Search(a, b, St(b1), b1[2], St(b2), b2[2], fe)))
+     /\ Row("mismatch", a, b, 0, KW2(b1[1], b1[2], b2[1], b2[2], FALSE), "int", Opt(Mismatch(a, b, St(b1), b1[2], St(b2), b2[2])))
+     /\ Row("replace", b, a, 0, KW2(b2[1], b2[2], b1[1], b1[2], FALSE), "seq", Replace(b, a, St(b2), b2[2], St(b1), b1[2]))
+FamOne ==
+  \A s \in Seqs(MaxLen) :
+     /\ Row("reverse", s, <<>>, 0, NoKW, "seq", Rev(s))
+     /\ Row("nreverse", s, <<>>, 0, NoKW, "seq", Rev(s))
+     /\ Row("length", s, <<>>, 0, NoKW, "int", Opt(Len(s)))
+     /\ Row("copy-seq", s, <<>>, 0, NoKW, "seq", s)
+     /\ \A b \in Bounds(Len(s)) :
+          /\ (b[1] = None \/ Row("subseq", s, <<>>, 0, KW(b[1], b[2], FALSE, None, "id", "eql"), "seq", Sub(s, St(b), b[2])))
+          /\ Row("fill", s, <<>>, 3, KW(b[1], b[2], FALSE, None, "id", "eql"), "seq", Fill(s, 3, St(b), b[2]))
+     /\ Row("every", s, <<>>, 0, NoKW, "bool", \A i \in 1..Len(s) : s[i] % 2 = 1)
+     /\ Row("some", s, <<>>, 0, NoKW, "bool", \E i \in 1..Len(s) : s[i] % 2 = 1)
+     /\ Row("notany", s, <<>>, 0, NoKW, "bool", ~\E i \in 1..Len(s) : s[i] % 2 = 1)
+     /\ Row("notevery", s, <<>>, 0, NoKW, "bool", ~\A i \in 1..Len(s) : s[i] % 2 = 1)
+     /\ Row("map1+", s, <<>>, 0, NoKW, "seq", [i \in 1..Len(s) |-> s[i] + 1])
+     /\ \A fe \in BOOLEAN : Row("reduce-", s, <<>>, 10, KW(None, None, fe, None, "id", "eql"), "int",
+                                 Opt(IF fe THEN ReduceR(s, 10, Len(s)) ELSE Reduce(s, 10, 1)))
+     /\ \A t \in Seqs(2) :
+          /\ Row("concatenate", s, t, 0, NoKW, "seq", s \o t)
+          /\ Row("map+", s, t, 0, NoKW, "seq", [i \in 1..(IF Len(s) < Len(t) THEN Len(s) ELSE Len(t)) |-> s[i] + t[i]])
+          /\ Row("append", s, t, 0, NoKW, "seq", s \o t)
+          /\ Row("union", s, t, 0, NoKW, "set", Rng(s) \cup Rng(t))
+          /\ Row("intersection", s, t, 0, NoKW, "set", Rng(s) \cap Rng(t))
+          /\ Row("set-difference", s, t, 0, NoKW, "set", Rng(s) \ Rng(t))
+          /\ Row("subsetp", s, t, 0, NoKW, "bool", Rng(s) \subseteq Rng(t))
+     /\ \A key \in {"id", "inc"} :
+          LET m == SelectSeq(Iota(Len(s)), LAMBDA i : K(key, s[i]) = 2) IN
+          /\ Row("member", s, <<>>, 2, KW(None, None, FALSE, None, key, "eql"), "seq", IF m = <<>> THEN <<>> ELSE SubSeq(s, m[1], Len(s)))
+          \* assoc / rassoc on the alist ((e . i) ...) / ((i . e) ...): index of the first pair whose car / cdr matches
+          /\ Row("assoc", s, <<>>, 2, KW(None, None, FALSE, None, key, "eql"), "int", Opt(IF m = <<>> THEN None ELSE m[1] - 1))
+          /\ Row("rassoc", s, <<>>, 2, KW(None, None, FALSE, None, key, "eql"), "int", Opt(IF m = <<>> THEN None ELSE m[1] - 1))
+\* ---- sorting family: short sequences exhaustively, longer ones at random ---------------------------------
+SortElems == {10, 11, 12, 20, 21, 30}
+SortSeqs == UNION {[1..k -> SortElems] : k \in 0..MaxLen} \cup RandomSubset(NLong, [1..LongLen -> SortElems])
+             \cup RandomSubset(NLong, [1..(LongLen \div 2 + 1) -> SortElems])
+FamSort ==
+  \A s \in SortSeqs :
+     /\ Row("stable-sort", s, <<>>, 0, NoKW, "seq", StableSort(s))
+     /\ Row("sort", s, <<>>, 0, NoKW, "sorted", StableSort(s))
+     /\ LET h == Len(s) \div 2  x == StableSort(SubSeq(s, 1, h))  y == StableSort(SubSeq(s, h + 1, Len(s))) IN
+        Row("merge", x, y, 0, NoKW, "seq", Merge(x, y))
 Next == /\ ~done /\ done' = TRUE
-        /\ \A s \in Seqs : \A b \in Bounds(Len(s)) : \A fe \in BOOLEAN : \A cnt \in {None, 0, 1, 2} :
-           \A key \in {"id", "inc"} : \A test \in {"eql", "lt"} :
-             LET item == 1  st == b[1]  en == b[2]
-                 rm == Remove(s, item, st, en, key, test, fe, cnt) IN
-             PrintT(ToJson([s |-> s, item |-> item, st |-> st, en |-> en, fe |-> fe, cnt |-> cnt, key |-> key, test |-> test,
-                            find |-> Find(s, item, st, en, key, test, fe),
-                            position |-> Position(s, item, st, en, key, test, fe),
-                            count |-> Count(s, item, st, en, key, test),
-                            remove |-> [i \in 1..Len(rm) |-> rm[i].e],
-                            substitute |-> Substitute(9, s, item, st, en, key, test, fe, cnt)]))
-====
+        /\ FamItem /\ FamDup /\ FamTwo /\ FamOne /\ FamSort
+\* ---- design checks on the transcriptions themselves ------------------------------------------------------
+Laws == \A s \in Seqs(2) : \A b \in Bounds(Len(s)) :
+          LET h == Hits(s, St(b), b[2], LAMBDA e : e = 1) IN
+          /\ Len(RemoveH(s, h)) + Len(h) = Len(s)
+          /\ (\A cnt \in {0, 1, 2} : Len(Lim(h, cnt, TRUE)) = (IF cnt < Len(h) THEN cnt ELSE Len(h)))
+          /\ Rev(Rev(s)) = s
+          /\ (PosH(h, FALSE) = None) = (Len(h) = 0)
+SortLaws == \A s \in UNION {[1..k -> SortElems] : k \in 0..3} :
+          LET r == StableSort(s) IN
+          /\ Len(r) = Len(s) /\ \A e \in SortElems : Cardinality({i \in 1..Len(s) : s[i] = e}) = Cardinality({i \in 1..Len(r) : r[i] = e})
+          /\ \A i \in 1..(Len(r) - 1) : SortKey(r[i]) <= SortKey(r[i + 1])
+          \* stability: equal keys keep their original relative order
+          /\ \A i, j \in 1..Len(s) : (i < j /\ SortKey(s[i]) = SortKey(s[j]) /\ s[i] # s[j]) =>
+                (CHOOSE p \in 1..Len(r) : r[p] = s[i] /\ \A q \in 1..(p - 1) : r[q] # s[i])
+                 < (CHOOSE p \in 1..Len(r) : r[p] = s[j] /\ \A q \in 1..(p - 1) : r[q] # s[j])
+             \/ Cardinality({k \in 1..Len(s) : s[k] = s[i]}) > 1 \/ Cardinality({k \in 1..Len(s) : s[k] = s[j]}) > 1
+Inv == done \/ (Laws /\ SortLaws)
+=============================================================================
